@@ -51,6 +51,11 @@ def run(tier):
         rest = [v for v in allv if v not in both]
         allv = rng.sample(both, min(350, len(both))) + rng.sample(rest, min(250, len(rest)))
     allv += altv
+    # malformed but plausible: references that lead back to a DIE already visited (the DIE itself, an earlier
+    # one): `attribute', @AT_x, ?AT_x and name must terminate and integrate what is reachable, once
+    cycv = D.gen_forests("cyc", 3, wd)
+    total_cyc = len(cycv)
+    allv += cycv if tier == "thorough" else rng.sample(cycv, min(300, len(cycv)))
     navv = []
     for n in ((4, 5) if tier == "quick" else (4, 5, 6)):
         navv += D.gen_forests("nav", n, wd)
@@ -74,10 +79,11 @@ def run(tier):
         F = v["forest"]
         both = any(sum(1 for a in d["attrs"] if a["n"] in ("spec", "orig")) == 2 for d in F["die"])
         order = ""
+        cyc = any(a["n"] in ("spec", "orig") and a["r"] and a["r"] <= k + 1 for k, d in enumerate(F["die"]) for a in d["attrs"])
         if both:
             d0 = [d for d in F["die"] if sum(1 for a in d["attrs"] if a["n"] in ("spec", "orig")) == 2][0]
             order = ", both references on one DIE (%s stored first)" % [a["n"] for a in d0["attrs"] if a["n"] in ("spec", "orig")][0]
-        key = "generated forest (%d DIEs%s):" % (len(F["die"]), order)
+        key = "generated forest (%d DIEs%s%s):" % (len(F["die"]), order, ", a reference leads back" if cyc else "")
         r = recs[per * i: per * (i + 1)]
         ok = True
         if not r[0] or r[0].get("status") != "ok":
